@@ -171,6 +171,17 @@ pub(crate) mod alloc {
 
         /// Compute a FFT, modifying the vector in place.
         fn fft_in_place(&self, coeffs: &mut Vec<BlsScalar>) {
+            // A polynomial with more coefficients than the domain has points
+            // is evaluated over the domain by reducing it modulo `X^n - 1`
+            // first (`x^n = 1` on the subgroup); truncating it instead would
+            // silently drop the high coefficients.
+            let size = self.size();
+            if coeffs.len() > size {
+                let (head, tail) = coeffs.split_at_mut(size);
+                for (i, coeff) in tail.iter().enumerate() {
+                    head[i % size] += coeff;
+                }
+            }
             coeffs.resize(self.size(), BlsScalar::zero());
             best_fft(coeffs, self.group_gen, self.log_size_of_group)
         }
